@@ -1290,78 +1290,66 @@ func c07OverrideKeys(c *Ctx, pk, pa *packages.Package, nodeIface, termIface *typ
 		}
 		return out
 	}
-	// does the setter normalise composite keys down to their last token?
-	var descend *ast.ForStmt
-	ast.Inspect(set.Decl.Body, func(n ast.Node) bool {
-		fs, ok := n.(*ast.ForStmt)
-		if !ok {
-			return true
-		}
-		asserts, reassigns, breaks := false, false, false
-		ast.Inspect(fs.Body, func(m ast.Node) bool {
-			switch x := m.(type) {
-			case *ast.TypeAssertExpr:
-				if x.Type != nil && namedName(info.TypeOf(x.Type)) == "CompositeNode" {
-					asserts = true
-				}
-			case *ast.AssignStmt:
-				if len(x.Lhs) == 1 && len(x.Rhs) == 1 && x.Tok == token.ASSIGN {
-					if ix, ok := ast.Unparen(x.Rhs[0]).(*ast.IndexExpr); ok {
-						s := strings.ReplaceAll(exprString(ix.Index), " ", "")
-						if strings.HasPrefix(s, "len(") && strings.HasSuffix(s, ")-1") && strings.Contains(exprString(ix.X), "Children()") {
-							reassigns = true
-						}
-					}
-				}
-			case *ast.BranchStmt:
-				if x.Tok == token.BREAK {
-					breaks = true
-				}
-			}
-			return true
-		})
-		if asserts && reassigns && breaks {
-			descend = fs
-		}
-		return true
-	})
-	compositeKeys := map[string]*types.Named{}
-	how := ""
-	if descend != nil {
-		how = "setTrailingComments descends to the last token of a composite key, except for the types it lists"
-		// types listed in case clauses that do not contain the loop
-		var sw *ast.TypeSwitchStmt
-		for q := p.Parent(descend); q != nil && q != ast.Node(set.Decl); q = p.Parent(q) {
-			if t, ok := q.(*ast.TypeSwitchStmt); ok {
-				sw = t
-				break
-			}
-		}
-		if sw != nil {
-			for _, st := range sw.Body.List {
-				cc := st.(*ast.CaseClause)
-				if containsNode(cc, descend) {
+	// does the setter normalise composite keys down to their last token? Decided on SSA, so that the shape of the
+	// loop (a local for Children(), a switch or comma-ok assertions for the exempted types) does not matter: the key of
+	// the store into the override map derives from an element read off the result of a Children() call, and the types
+	// exempted from the descent are the concrete node types the setter's node parameter is tested against.
+	var descends bool
+	var keyStore *ssa.MapUpdate
+	var childrenCall *ssa.Call
+	setSSA := p.SSAFunc(set.Obj)
+	if setSSA != nil {
+		for _, b := range setSSA.Blocks {
+			for _, ins := range b.Instrs {
+				mu, ok := ins.(*ssa.MapUpdate)
+				if !ok {
 					continue
 				}
-				for _, e := range cc.List {
-					for _, x := range implementers(info.TypeOf(e)) {
-						if !isTerminal(x.named) {
-							compositeKeys[x.name] = x.named
-						}
+				if u, ok := stripConv(mu.Map).(*ssa.UnOp); ok {
+					if fa, ok := u.X.(*ssa.FieldAddr); ok && strings.HasSuffix(fieldName(fa.X.Type(), fa.Field), "."+c07Field) {
+						keyStore = mu
 					}
 				}
 			}
 		}
-		// the store must come after the loop
-		g := p.CFGOf(set.Decl.Body, info)
-		ast.Inspect(set.Decl.Body, func(n ast.Node) bool {
-			if as, ok := n.(*ast.AssignStmt); ok && len(as.Lhs) == 1 {
-				if ix, ok := ast.Unparen(as.Lhs[0]).(*ast.IndexExpr); ok && strings.HasSuffix(exprString(ix.X), c07Field) {
-					c.Ob(rule, "store-after-normalisation", as.Pos(), !g.Reachable(as, descend), true, "the override is stored after the descent to the last token, never before it")
+		if keyStore != nil {
+			sliceBack(keyStore.Key, func(x ssa.Value) bool {
+				if cl, ok := x.(*ssa.Call); ok && cl.Call.IsInvoke() && cl.Call.Method.Name() == "Children" {
+					childrenCall = cl
+				}
+				return true
+			})
+			descends = childrenCall != nil
+		}
+	}
+	compositeKeys := map[string]*types.Named{}
+	how := ""
+	if descends {
+		how = "setTrailingComments descends to the last token of a composite key, except for the types it tests its argument for"
+		for _, b := range setSSA.Blocks {
+			for _, ins := range b.Instrs {
+				ta, ok := ins.(*ssa.TypeAssert)
+				if !ok || len(setSSA.Params) < 2 || stripConv(ta.X) != ssa.Value(setSSA.Params[1]) {
+					continue
+				}
+				if _, isIface := ta.AssertedType.Underlying().(*types.Interface); isIface {
+					continue
+				}
+				for _, x := range implementers(ta.AssertedType) {
+					if !isTerminal(x.named) {
+						compositeKeys[x.name] = x.named
+					}
 				}
 			}
-			return true
-		})
+		}
+		// the store comes after the descent: it is not inside the loop that walks down
+		inLoop := false
+		for _, h := range setSSA.Blocks {
+			if l := loopBlocks(h); l != nil && l[childrenCall.Block()] && l[keyStore.Block()] {
+				inLoop = true
+			}
+		}
+		c.Ob(rule, "store-after-normalisation", keyStore.Pos(), !inLoop, true, "the override is stored after the descent to the last token, never inside it")
 	} else {
 		how = "setTrailingComments stores its argument as the key: every composite type a call site can pass is a key"
 		for _, f := range pk.Syntax {
